@@ -17,6 +17,11 @@ pub fn verif_root() -> std::path::PathBuf {
     std::env::var("VERIF_ROOT").map(std::path::PathBuf::from).unwrap_or_else(|_| std::path::PathBuf::from("/verif"))
 }
 
+/// where evidence and replay files go (VERIF_OUT overrides, e.g. while trying seeded changes)
+pub fn out_root() -> std::path::PathBuf {
+    std::env::var("VERIF_OUT").map(std::path::PathBuf::from).unwrap_or_else(|_| verif_root())
+}
+
 /// stdout may be redirected to /dev/null (the async library prints); verdicts go to the saved fd
 pub static OUT_FD: std::sync::atomic::AtomicI32 = std::sync::atomic::AtomicI32::new(1);
 
@@ -403,7 +408,7 @@ pub fn check(prop: &str, tier_name: &str, runs_override: Option<u64>, secs_overr
     // report at most 6 distinct classes (by key class), earliest first
     unlisted.sort_by_key(|f| f.index);
     let mut seen_classes: BTreeSet<String> = BTreeSet::new();
-    let dir = verif_root().join("replays");
+    let dir = out_root().join("replays");
     let _ = std::fs::create_dir_all(&dir);
     for f in unlisted {
         let kc = key_class(&f.v.key);
@@ -524,7 +529,7 @@ pub fn replay(path: &str, quiet: bool, trace: bool) -> i32 {
 }
 
 fn write_evidence(prop: &str, tier: &Tier, seed: u64, agg: &Agg, wall: f64, capped: bool, n_viol: usize, replays: &[String]) {
-    let dir = verif_root().join("evidence");
+    let dir = out_root().join("evidence");
     let _ = std::fs::create_dir_all(&dir);
     let (level, rule, components, assumptions) = props::evidence_meta(prop);
     let mut faults = serde_json::Map::new();
